@@ -165,6 +165,8 @@ def _sym2(E, p, c, got, n, vals, V):
 
 
 def kf_match(case):
+    if "c" not in case or "p" not in case or "ix" not in case["p"]:
+        return []
     c, p = case["c"], case["p"]
     n = len(c["vals"])
     if p["ix"] == "slice" and any(t is not None and not -n <= t <= n for t in (c["a"], c["b"])):
